@@ -49,6 +49,7 @@ func TestC03(t *testing.T) {
 			runHistory(r, cid, L)
 		}()
 	}
+	faultSweep(r)
 	r.MinNontrivial(r.N(100, 4000))
 }
 
